@@ -58,6 +58,11 @@ fn main() {
                 }
                 let mut b = e.budget.clone();
                 b.max_secs *= scale;
+                if tier == Tier::Thorough && !b.sample_only {
+                    // every quick configuration is explored deeper in thorough
+                    b.max_classes = b.max_classes.saturating_mul(10);
+                    b.max_secs *= 4.0;
+                }
                 let r = e.h.explore(&mut ex, &b, seed);
                 eprintln!(
                     "[{}] {}: classes={} proven={} unknown={} undecided_flips={} exhaustive={} viol={} err={} {:.1}s ({})",
